@@ -100,7 +100,106 @@ impl<T: Observe> Observe for std::collections::HashMap<String, T> {
 macro_rules! observe_tokens {
     ($($t:ty),*) => { $( impl Observe for $t { fn observe(&self) -> Val { Val::Tokens(crate::util::canon_tokens(quote::ToTokens::to_token_stream(self))) } } )* };
 }
-observe_tokens!(syn::Ident, syn::Path, syn::Expr, syn::LitStr, syn::Visibility, syn::Type, syn::Attribute, syn::Generics, syn::Meta);
+observe_tokens!(syn::Ident, syn::Path, syn::Expr, syn::LitStr, syn::Visibility, syn::Type, syn::Attribute, syn::Meta, syn::TypeParamBound, syn::Field, syn::Variant, syn::TypeParam, syn::LifetimeParam, syn::ConstParam, syn::WhereClause);
+
+fn tok<T: quote::ToTokens>(t: &T) -> Val {
+    Val::Tokens(crate::util::canon_tokens(quote::ToTokens::to_token_stream(t)))
+}
+
+/// Generics are observed structurally (params in order, each with its kind, then the where-clause),
+/// in the same shape for `syn::Generics` and `darling::ast::Generics<..>`.
+impl Observe for syn::Generics {
+    fn observe(&self) -> Val {
+        let params = self
+            .params
+            .iter()
+            .map(|p| match p {
+                syn::GenericParam::Type(t) => Val::Variant("GenericParam".into(), "Type".into(), vec![("0".into(), tok(t))]),
+                syn::GenericParam::Lifetime(l) => Val::Variant("GenericParam".into(), "Lifetime".into(), vec![("0".into(), tok(l))]),
+                syn::GenericParam::Const(c) => Val::Variant("GenericParam".into(), "Const".into(), vec![("0".into(), tok(c))]),
+            })
+            .collect();
+        Val::Struct("Generics".into(), vec![("params".into(), Val::List(params)), ("where".into(), self.where_clause.observe())])
+    }
+}
+impl<T: Observe, L: Observe, C: Observe> Observe for darling::ast::GenericParam<T, L, C> {
+    fn observe(&self) -> Val {
+        match self {
+            darling::ast::GenericParam::Type(t) => Val::Variant("GenericParam".into(), "Type".into(), vec![("0".into(), t.observe())]),
+            darling::ast::GenericParam::Lifetime(l) => Val::Variant("GenericParam".into(), "Lifetime".into(), vec![("0".into(), l.observe())]),
+            darling::ast::GenericParam::Const(c) => Val::Variant("GenericParam".into(), "Const".into(), vec![("0".into(), c.observe())]),
+        }
+    }
+}
+impl<P: Observe, W: Observe> Observe for darling::ast::Generics<P, W> {
+    fn observe(&self) -> Val {
+        Val::Struct("Generics".into(), vec![("params".into(), self.params.observe()), ("where".into(), self.where_clause.observe())])
+    }
+}
+impl<F: Observe> Observe for darling::ast::Fields<F> {
+    fn observe(&self) -> Val {
+        let style = match self.style {
+            darling::ast::Style::Struct => "named",
+            darling::ast::Style::Tuple => "tuple",
+            darling::ast::Style::Unit => "unit",
+        };
+        Val::Struct("Fields".into(), vec![("style".into(), Val::Str(style.into())), ("fields".into(), self.fields.observe())])
+    }
+}
+impl<V: Observe, F: Observe> Observe for darling::ast::Data<V, F> {
+    fn observe(&self) -> Val {
+        match self {
+            darling::ast::Data::Enum(vs) => Val::Variant("Data".into(), "Enum".into(), vec![("0".into(), vs.observe())]),
+            darling::ast::Data::Struct(fs) => Val::Variant("Data".into(), "Struct".into(), vec![("0".into(), fs.observe())]),
+        }
+    }
+}
+impl<T: Observe> Observe for darling::Result<T> {
+    fn observe(&self) -> Val {
+        match self {
+            Ok(x) => Val::Variant("Result".into(), "Ok".into(), vec![("0".into(), x.observe())]),
+            Err(e) => Val::Variant("Result".into(), "Err".into(), vec![("0".into(), Val::Str(e.to_string()))]),
+        }
+    }
+}
+impl<T: Observe, O: Observe> Observe for darling::util::WithOriginal<T, O> {
+    fn observe(&self) -> Val {
+        Val::Struct("WithOriginal".into(), vec![("parsed".into(), self.parsed.observe()), ("original".into(), self.original.observe())])
+    }
+}
+impl Observe for darling::util::Ignored {
+    fn observe(&self) -> Val {
+        Val::Unit
+    }
+}
+
+/// `#[darling(with = ...)]` converters for forwarded fields.
+#[derive(Debug)]
+pub struct CountedAttrs(pub Vec<syn::Attribute>);
+impl Observe for CountedAttrs {
+    fn observe(&self) -> Val {
+        Val::Struct("CountedAttrs".into(), vec![("n".into(), Val::Int(self.0.len() as i64)), ("attrs".into(), self.0.observe())])
+    }
+}
+pub fn attrs_with(a: Vec<syn::Attribute>) -> darling::Result<CountedAttrs> {
+    Ok(CountedAttrs(a))
+}
+#[derive(Debug)]
+pub struct BodyKind(pub String);
+impl Observe for BodyKind {
+    fn observe(&self) -> Val {
+        Val::Str(self.0.clone())
+    }
+}
+pub fn data_with(d: &syn::Data) -> darling::Result<BodyKind> {
+    Ok(BodyKind(
+        match d {
+            syn::Data::Struct(s) => format!("struct:{}", s.fields.len()),
+            syn::Data::Enum(e) => format!("enum:{}", e.variants.len()),
+            syn::Data::Union(_) => "union".to_string(),
+        },
+    ))
+}
 impl<T: Observe> Observe for darling::util::SpannedValue<T> {
     fn observe(&self) -> Val {
         Val::Spanned(Box::new((**self).observe()), crate::util::range(self.span()))
